@@ -83,6 +83,10 @@ package types
 // verif:func verifyCascadingFields
 //@ ensures [direct-child] result == nil ==> clientState.Header.Height.RevisionHeight == header.Height.RevisionHeight - 1 && clientState.Header.Hash() == common.BytesToHash(header.ParentHash)
 //@ ensures [gas] result == nil ==> header.GasLimit <= 0x7fffffffffffffff && header.GasUsed <= header.GasLimit && header.GasLimit >= params.MinGasLimit
+// the gas limit moves by strictly less than parent/256 per block (the stored head's own limit passed the cap when it was accepted)
+//@ ensures [gas-step] result == nil && clientState.Header.GasLimit <= 0x7fffffffffffffff ==>
+//@        (header.GasLimit >= clientState.Header.GasLimit ==> header.GasLimit - clientState.Header.GasLimit < clientState.Header.GasLimit / 256) &&
+//@        (header.GasLimit <  clientState.Header.GasLimit ==> clientState.Header.GasLimit - header.GasLimit < clientState.Header.GasLimit / 256)
 //@ ensures [seal] result == nil ==> ncalls("verifySeal") == 1 && callsok("verifySeal")
 //@ callsite verifySeal [same-header] dollar_header == header && dollar_clientState == clientState && dollar_store == store
 
